@@ -102,8 +102,9 @@ ROUND3 = [
          "        command = re.sub('\"\"\"', \"'''\", \" \".join(sys.argv))\n"),
     ]),
     ("int_removed_via_alias", "int is dropped from the routed candidates through an alias", [
-        (J + "generator.py", "        if int in other_types and float in other_types:\n            other_types.remove(int)\n",
-         "        cands = other_types\n        if int in cands and float in cands:\n            cands.remove(int)\n"),
+        (J + "generator.py", "        if float in other_types:\n            # int can be listed more than once (directly and taken out of an Optional member)\n"
+                              "            while int in other_types:\n                other_types.remove(int)\n",
+         "        cands = other_types\n        if float in cands:\n            while int in cands:\n                cands.remove(int)\n"),
     ]),
     ("non_string_value_rejected_first", "the string branch rejects non-strings before the parsers run", [
         (J + "generator.py", "        else:\n            for t in self.str_types_registry:\n",
